@@ -52,6 +52,11 @@ def fit_case(draw, classes=None):
     s = draw(E.est_spec(classes=classes, n_max=10, d_max=4, iter_max=5, k_max=4, hidden_max=4, default_lr=True, n_min=2,
                         kernel_forms=("named", "callable"), metric_forms=("named", "callable")))
     dg = draw(degenerate())
+    names = [a["name"] for a in (s.get("aff"), s.get("base_kernel"), (s.get("gemini") or {}).get("gs", {}).get("a")) if a]
+    if any(nm in ("poly", "polynomial") for nm in names) or (s["cls"] == "KernelRIM" and s.get("reg", 0) > 0):
+        # features growing like |x|^6 (polynomial kernels) or a kernel-weighted penalty on kernels of size 1e6 make
+        # fixed-step gradient descent overflow legitimately: outside the families named by the property
+        dg["scale"], dg["offset"] = 1.0, 0.0
     if dg["k1"]:
         s["n_clusters"] = 1
     if dg["n_eq_k"]:
